@@ -309,11 +309,14 @@ fn new_region(w: &mut World) -> Result<(Reg, usize), String> {
     let overflow = base.checked_add(size as u64).is_none();
     let live_before = cx().sys.live_count();
     let mut ext = None;
+    let mut short_file = false;
     let res: Result<Reg, MErr> = match kind {
         "anonymous" => Reg::from_range(GuestAddress(base), size, None),
         "file-backed" => {
             let off = 4096 * cx().a(2) as u64;
-            let f = crate::gmworld::memfd(off + size as u64);
+            // now and then the file is one byte too short: the request must be refused and leave nothing behind
+            short_file = cx().a(8) == 0;
+            let f = crate::gmworld::memfd(off + size as u64 - short_file as u64);
             Reg::from_range(GuestAddress(base), size, Some(FileOffset::new(f, off)))
         }
         _ => {
@@ -339,8 +342,8 @@ fn new_region(w: &mut World) -> Result<(Reg, usize), String> {
     };
     match res {
         Ok(r) => {
-            if overflow || inject {
-                return Err(format!("create {} region [{:#x},+{}) succeeded although {}", kind, base, size, if inject { "mmap was made to fail" } else { "its end exceeds the address space" }));
+            if overflow || inject || short_file {
+                return Err(format!("create {} region [{:#x},+{}) succeeded although {}", kind, base, size, if inject { "mmap was made to fail" } else if short_file { "the file is shorter than the requested range" } else { "its end exceeds the address space" }));
             }
             let host = r.as_ptr() as usize;
             let mid = if kind == "external" { None } else { cx().sys.find_live(host).map(|m| m.id) };
@@ -350,7 +353,7 @@ fn new_region(w: &mut World) -> Result<(Reg, usize), String> {
         }
         Err(e) => {
             let name = merr(&e);
-            let expected = if inject { "MmapRegion" } else if overflow { "InvalidGuestRegion" } else { "" };
+            let expected = if inject || short_file { "MmapRegion" } else if overflow { "InvalidGuestRegion" } else { "" };
             if name != expected {
                 return Err(format!("create {} region [{:#x},+{}) failed with {} ({:?}); expected {}", kind, base, size, name, e, if expected.is_empty() { "success" } else { expected }));
             }
